@@ -5,6 +5,8 @@
   documents after the lazy TTL pass, and the index names) and on the index tables themselves.
 -/
 import Proofs.C08
+import Proofs.C08Ext
+import Proofs.C08ExtCex
 
 namespace MongoModel.Props.C08
 open MongoModel MongoModel.Spec
@@ -71,5 +73,262 @@ theorem ordered_error_details (cfg : Cfg) (now : Int) (c : Coll) (ds : List Val)
     ∃ k code, details = .doc [("writeErrors", .arr [.doc [("index", .int k), ("code", code)]]),
                               ("nInserted", .int k)] :=
   Proofs.C08.ordered_error_details cfg now c ds details h
+
+/-! ## Extension: find_one_and_*, update_many, bulk_write (model: `stepX`, FindModify.lean)
+
+"As it was" is `Spec.Untouched now c c'`: `c'` is `c` itself or `c` after the lazy expiry pass at
+the same clock, up to the counter of generated ObjectIds. -/
+
+/-- What `Untouched` guarantees: nothing a client can observe at that clock has changed, the index
+    tables are the same, and the stored documents are those of `c` or of `c` after the expiry
+    pass, in the same order. -/
+theorem untouched_observable (now : Int) (c c' : Coll) (h : Untouched now c c') :
+    visible ⟨now, c'⟩ = visible ⟨now, c⟩ ∧ c'.indexes = c.indexes ∧
+    c'.ttlIndexes = c.ttlIndexes ∧ c'.forceCreated = c.forceCreated ∧
+    (c'.docs = c.docs ∨ ∃ c1, expire now c = .ok c1 ∧ c'.docs = c1.docs) :=
+  Proofs.C08Ext.untouched_observable now c c' h
+
+/-- **Every all-or-nothing write that raises leaves the collection exactly as it was**
+    (insert_one, update_one, replace_one, delete_one, delete_many): the exact-state form of
+    `failed_single_write_noop`, `delete_many` included. -/
+theorem failed_atomic_write_untouched (cfg : Cfg) (now : Int) (c : Coll) (op : Val)
+    (ha : atomicWrite op = true) (he : (stepColl cfg now c op).2.isErr = true) :
+    Untouched now c (stepColl cfg now c op).1 :=
+  Proofs.C08Ext.failed_atomic_write_untouched cfg now c op ha he
+
+/-- non-vacuity: a `delete_many` whose filter raises on a collection of two documents -/
+example : atomicWrite (.arr [.str "delete_many", .doc [("a", .doc [("$in", .int 1)])]]) = true ∧
+    (stepColl {} 0 Proofs.C08Ext.manyWitnessColl
+      (.arr [.str "delete_many", .doc [("a", .doc [("$in", .int 1)])]])).2.isErr = true := by
+  decide +kernel
+
+/-! ### find_one_and_update / find_one_and_replace / find_one_and_delete -/
+
+/-- A find_one_and_* that raises leaves the collection exactly as it was.  Full statement (for
+    every such call): FALSE of the model and of the code — with `return_document=AFTER` the final
+    read-back `find_one(query, projection)` runs after the write, so a projection that raises
+    there (e.g. one mixing inclusion and exclusion) raises with the update or the upsert done. -/
+def fam_failed_noop_full : Prop :=
+  ∀ (cfg : Cfg) (now : Int) (c : Coll) (op : Val), famOp op = true →
+    (stepX cfg now c op).2.isErr = true → Untouched now c (stepX cfg now c op).1
+
+theorem fam_failed_noop_full_fails : ¬ fam_failed_noop_full :=
+  Proofs.C08Ext.fam_failed_noop_full_fails
+
+/-- the witness: `find_one_and_update({_id: 7}, {$set: {a: 5}}, projection={a: 1, b: 0},
+    upsert=True, return_document=AFTER)` raises ValueError and leaves the upserted document -/
+example : famOp Proofs.C08Ext.famWitnessOp = true ∧
+    (stepX {} 0 Proofs.C08Ext.famWitnessColl Proofs.C08Ext.famWitnessOp).2.isErr = true ∧
+    (stepX {} 0 Proofs.C08Ext.famWitnessColl Proofs.C08Ext.famWitnessOp).1.docs.length = 2 :=
+  Proofs.C08Ext.fam_witness
+
+/-- **What holds for every find_one_and_* that raises**: the collection is exactly as it was —
+    unless `return_document=AFTER` was requested, the same call with BEFORE succeeds, and the
+    collection is exactly as that successful call leaves it (the write was done in full; only the
+    read-back raised).  Never a partial write. -/
+theorem fam_failed_partial (cfg : Cfg) (now : Int) (c : Coll) (op : Val) (hop : famOp op = true)
+    (he : (stepX cfg now c op).2.isErr = true) :
+    Untouched now c (stepX cfg now c op).1 ∨
+    (famAfter op = true ∧ (stepX cfg now c (famBefore op)).2.isErr = false ∧
+      Untouched now (stepX cfg now c (famBefore op)).1 (stepX cfg now c op).1) :=
+  Proofs.C08Ext.fam_failed_partial cfg now c op hop he
+
+/-- **find_one_and_delete, and find_one_and_update / _replace with return_document=BEFORE, that
+    raise leave the collection exactly as it was** — whatever raised: the filter, the sort, the
+    projection, the update operators, an `_id` change, a duplicate key, an upsert that fails. -/
+theorem fam_failed_noop (cfg : Cfg) (now : Int) (c : Coll) (op : Val) (hop : famOp op = true)
+    (ha : famAfter op = false) (he : (stepX cfg now c op).2.isErr = true) :
+    Untouched now c (stepX cfg now c op).1 :=
+  Proofs.C08Ext.fam_failed_noop cfg now c op hop ha he
+
+/-- … in a history (`stepXS`, the form of `failed_single_write_noop`): nothing observable changes
+    and the index tables are untouched. -/
+theorem fam_failed_history_noop (cfg : Cfg) (s : St) (op : Val) (hop : famOp op = true)
+    (ha : famAfter op = false) (he : (stepXS cfg s op).2.isErr = true) :
+    visible (stepXS cfg s op).1 = visible s ∧
+    (stepXS cfg s op).1.c.indexes = s.c.indexes ∧
+    (stepXS cfg s op).1.c.ttlIndexes = s.c.ttlIndexes :=
+  Proofs.C08Ext.fam_failed_history_noop cfg s op hop ha he
+
+/-- non-vacuity: on two documents and a unique index, a sorted find_one_and_update whose `$set`
+    collides with the other document (DuplicateKeyError after the target was rewritten in place) -/
+example : (match (run {} [
+      .arr [.str "insert_one", .doc [("_id", .int 1), ("a", .int 1)]],
+      .arr [.str "insert_one", .doc [("_id", .int 2), ("a", .int 2)]],
+      .arr [.str "create_index", .arr [.arr [.str "a", .int 1]], .doc [("unique", .bool true)]]]).2 with
+    | s =>
+      let op : Val := .arr [.str "find_one_and_update", .doc [], .doc [("$set", .doc [("a", .int 1)])],
+                            .null, .arr [.arr [.str "a", .int (-1)]], .bool false, .bool false]
+      famOp op && !famAfter op && (stepX {} s.now s.c op).2.isErr &&
+        (stepXS {} s op).2.isErr) = true := by decide +kernel
+
+/-! ### update_many: document granularity -/
+
+/-- **update_many is the single-document update iterated over the snapshot, stopped by the first
+    document whose update raises — and that failing update changes nothing.**  No hypothesis. -/
+theorem update_many_iterates_single (now : Int) (spec document nowV : Val) (c : Coll) (m u : Nat) :
+    updateLoop now spec document nowV true [] c m u = (c, .ok (m, u)) ∧
+    ∀ (p : Val × Val) (rest : List (Val × Val)),
+      updateLoop now spec document nowV true (p :: rest) c m u =
+        match updateLoop now spec document nowV false [p] c m u with
+        | (_, .error e) => (c, .error e)
+        | (c1, .ok (m1, u1)) => updateLoop now spec document nowV true rest c1 m1 u1 :=
+  Proofs.C08Ext.update_many_iterates_single now spec document nowV c m u
+
+/-- **When the loop of update_many raises**, the collection is: the documents before the failing
+    one, each carrying the update if the filter selects it (`Spec.Updated`), then the failing
+    document and all later ones exactly as they were; the failing document is the one whose
+    single-document update raises that error.  (No TTL index: an updated document cannot expire
+    in the middle of the loop; store keys as in C05/C10/C14.) -/
+theorem update_many_stops_at_failing_document (now : Int) (spec document nowV : Val) (c c' : Coll)
+    (m u : Nat) (e : Err) (hn : c.ttlIndexes = []) (hk : KeysDistinct c) (hg : GoodKeys c)
+    (h : updateLoop now spec document nowV true c.docs c m u = (c', .error e)) :
+    ∃ pre pre' q post, c.docs = pre ++ q :: post ∧ c'.docs = pre' ++ q :: post ∧
+      List.Forall₂ (Updated spec document nowV) pre pre' ∧
+      (∀ m2 u2, updateLoop now spec document nowV false [q] c' m2 u2 = (c', .error e)) ∧
+      c'.indexes = c.indexes ∧ c'.ttlIndexes = c.ttlIndexes :=
+  Proofs.C08Ext.update_many_stops_at_failing_document now spec document nowV c c' m u e hn hk hg h
+
+/-- … and when it does not raise every document carries the update if the filter selects it. -/
+theorem update_many_updates_all_selected (now : Int) (spec document nowV : Val) (c c' : Coll)
+    (m u m' u' : Nat) (hn : c.ttlIndexes = []) (hk : KeysDistinct c) (hg : GoodKeys c)
+    (h : updateLoop now spec document nowV true c.docs c m u = (c', .ok (m', u'))) :
+    List.Forall₂ (Updated spec document nowV) c.docs c'.docs :=
+  Proofs.C08Ext.update_many_updates_all_selected now spec document nowV c c' m u m' u' hn hk hg h
+
+/-- **An `update_many` that raises keeps the documents it had already updated and nothing else
+    changes**: a prefix of the collection carries the update, the rest (the failing document
+    first) is exactly as before, the index tables are untouched — whatever raised (validation,
+    the filter, an operator on one document, an `_id` change, a duplicate key, the upsert). -/
+theorem update_many_document_granularity (cfg : Cfg) (now : Int) (c : Coll) (f u up : Val)
+    (hn : c.ttlIndexes = []) (hk : KeysDistinct c) (hg : GoodKeys c)
+    (he : (stepColl cfg now c (.arr [.str "update_many", f, u, up])).2.isErr = true) :
+    ∃ pre pre' post, c.docs = pre ++ post ∧
+      (stepColl cfg now c (.arr [.str "update_many", f, u, up])).1.docs = pre' ++ post ∧
+      List.Forall₂ (Updated (patchDT f) (patchDT u) (patchDT (.date now none))) pre pre' ∧
+      (stepColl cfg now c (.arr [.str "update_many", f, u, up])).1.indexes = c.indexes ∧
+      (stepColl cfg now c (.arr [.str "update_many", f, u, up])).1.ttlIndexes = c.ttlIndexes :=
+  Proofs.C08Ext.update_many_document_granularity cfg now c f u up hn hk hg he
+
+/-- non-vacuity: `{$inc: {a: 1}}` over `a = 1, 2, "x", 4` raises on the third document; the first
+    two are incremented, the last two untouched; the hypotheses hold on that collection -/
+example : Proofs.C08Ext.granColl.ttlIndexes = [] ∧ KeysDistinct Proofs.C08Ext.granColl ∧
+    GoodKeys Proofs.C08Ext.granColl := Proofs.C08Ext.granColl_hyps
+
+example : (match stepColl {} 0 Proofs.C08Ext.granColl
+      (.arr [.str "update_many", .doc [], .doc [("$inc", .doc [("a", .int 1)])], .bool false]) with
+    | (c', .err _) => c'.docs.map (·.2) == [
+        .doc [("_id", .int 1), ("a", .int 2)], .doc [("_id", .int 2), ("a", .int 3)],
+        .doc [("_id", .int 3), ("a", .str "x")], .doc [("_id", .int 4), ("a", .int 4)]]
+    | _ => false) = true := by decide +kernel
+
+/-! ### bulk_write, all six kinds of request -/
+
+/-- `bulk_write` of `stepX` is `bulkWrite` -/
+theorem stepX_bulk_write (cfg : Cfg) (now : Int) (c : Coll) (reqs : List Val) (ordered : Val) :
+    stepX cfg now c (.arr [.str "bulk_write", .arr reqs, ordered]) =
+      bulkWrite cfg now c reqs (boolOf ordered) := rfl
+
+/-- **A request that fails inside a bulk leaves the collection, at that position, exactly as the
+    previous request left it** — for the five all-or-nothing kinds (InsertOne, UpdateOne,
+    ReplaceOne, DeleteOne, DeleteMany, and any malformed request), whether the failure is a write
+    error the bulk collects or an exception that aborts it. -/
+theorem bulk_failed_request_noop (cfg : Cfg) (now : Int) (c c' : Coll) (idx : Nat) (req : Val)
+    (o : BulkOut) (ha : atomicRequest req = true)
+    (h : bulkOne cfg now c idx req = (c', o)) (ho : requestFailed o = true) :
+    Untouched now c c' :=
+  Proofs.C08Ext.bulk_failed_request_noop cfg now c c' idx req o ha h ho
+
+/-- For every kind of request: FALSE — an `UpdateMany` request fails at document granularity,
+    like `update_many`. -/
+def bulk_failed_request_noop_full : Prop :=
+  ∀ (cfg : Cfg) (now : Int) (c c' : Coll) (idx : Nat) (req : Val) (o : BulkOut),
+    bulkOne cfg now c idx req = (c', o) → requestFailed o = true → Untouched now c c'
+
+theorem bulk_failed_request_noop_full_fails : ¬ bulk_failed_request_noop_full :=
+  Proofs.C08Ext.bulk_failed_request_noop_full_fails
+
+/-- … a failing `UpdateMany` request keeps the documents it had already updated, and only those
+    (same statement as `update_many_document_granularity`). -/
+theorem bulk_failed_update_many (cfg : Cfg) (now : Int) (c c' : Coll) (idx : Nat) (f u up : Val)
+    (o : BulkOut) (hn : c.ttlIndexes = []) (hk : KeysDistinct c) (hg : GoodKeys c)
+    (h : bulkOne cfg now c idx (.arr [.str "UpdateMany", f, u, up]) = (c', o))
+    (ho : requestFailed o = true) :
+    ∃ pre pre' post, c.docs = pre ++ post ∧ c'.docs = pre' ++ post ∧
+      List.Forall₂ (Updated (patchDT f) (patchDT u) (patchDT (.date now none))) pre pre' ∧
+      c'.indexes = c.indexes ∧ c'.ttlIndexes = c.ttlIndexes :=
+  Proofs.C08Ext.bulk_failed_update_many cfg now c c' idx f u up o hn hk hg h ho
+
+/-- non-vacuity (both theorems and the witness of `_full_fails`): a failing `UpdateMany` that
+    has incremented the first document, a failing `InsertOne` -/
+example : requestFailed (bulkOne {} 0 Proofs.C08Ext.manyWitnessColl 0 Proofs.C08Ext.manyWitnessReq).2
+      = true ∧
+    atomicRequest (.arr [.str "InsertOne", .doc [("_id", .int 1)]]) = true ∧
+    requestFailed (bulkOne {} 0 Proofs.C08Ext.manyWitnessColl 0
+      (.arr [.str "InsertOne", .doc [("_id", .int 1)]])).2 = true := by decide +kernel
+
+/-- `seqAllOk` and `seqFailures` agree: all operations succeed one at a time iff none fails. -/
+theorem seqAllOk_iff_no_failures (cfg : Cfg) (now : Int) (ops : List Val) (c : Coll) (i : Nat) :
+    seqAllOk cfg now ops c = true ↔ seqFailures cfg now ops c i = [] :=
+  Proofs.C08Ext.seqAllOk_iff_no_failures cfg now ops c i
+
+/-- **Ordered bulk_write applies exactly the operations before the first failure**: it succeeds
+    iff every request succeeds when issued one at a time, and then it is that run; otherwise the
+    requests split as `pre ++ r :: post` where all of `pre` succeed one at a time, `r` raises on
+    the collection they leave, the final collection is what that failing `r` leaves (exactly the
+    collection after `pre` when `r` is all-or-nothing), nothing of `post` is applied, and the
+    BulkWriteError reports the single position `pre.length`. -/
+theorem bulk_ordered_stops_at_first_failure (cfg : Cfg) (now : Int) (c : Coll) (reqs : List Val)
+    (hp : reqs.all plainRequest = true) (hv : bulkPrecheck reqs = .ok ()) (hne : reqs ≠ []) :
+    ((bulkWrite cfg now c reqs true).2.isErr = false →
+      seqAllOk cfg now (reqs.map asSingle) c = true ∧
+      (bulkWrite cfg now c reqs true).1 = seqOps cfg now (reqs.map asSingle) c) ∧
+    ((bulkWrite cfg now c reqs true).2.isErr = true →
+      ∃ pre r post, reqs = pre ++ r :: post ∧
+        seqAllOk cfg now (pre.map asSingle) c = true ∧
+        (stepColl cfg now (seqOps cfg now (pre.map asSingle) c) (asSingle r)).2.isErr = true ∧
+        (bulkWrite cfg now c reqs true).1 =
+          (stepColl cfg now (seqOps cfg now (pre.map asSingle) c) (asSingle r)).1 ∧
+        (atomicRequest r = true →
+          Untouched now (seqOps cfg now (pre.map asSingle) c) (bulkWrite cfg now c reqs true).1) ∧
+        (∀ details, (bulkWrite cfg now c reqs true).2 = .bulkErr details →
+          errorPositions details = [.int pre.length])) :=
+  Proofs.C08Ext.bulk_ordered_stops_at_first_failure cfg now c reqs hp hv hne
+
+/-- **Unordered bulk_write applies every operation that succeeds on its own** (when no request
+    aborts the batch): the final collection is the one-at-a-time run of all the requests, each
+    failing all-or-nothing request leaving no trace (`failed_atomic_write_untouched`), the bulk
+    succeeds iff all of them do, and the BulkWriteError lists exactly the positions of the
+    requests that raise in that run. -/
+theorem bulk_unordered_applies_every_success (cfg : Cfg) (now : Int) (c : Coll) (reqs : List Val)
+    (hp : reqs.all plainRequest = true) (hv : bulkPrecheck reqs = .ok ()) (hne : reqs ≠ [])
+    (hw : ∀ e, (bulkWrite cfg now c reqs false).2 ≠ .err e) :
+    (bulkWrite cfg now c reqs false).1 = seqOps cfg now (reqs.map asSingle) c ∧
+    ((bulkWrite cfg now c reqs false).2.isErr = false ↔
+      seqAllOk cfg now (reqs.map asSingle) c = true) ∧
+    (∀ details, (bulkWrite cfg now c reqs false).2 = .bulkErr details →
+      errorPositions details =
+        (seqFailures cfg now (reqs.map asSingle) c 0).map (fun i : Nat => Val.int i)) :=
+  Proofs.C08Ext.bulk_unordered_applies_every_success cfg now c reqs hp hv hne hw
+
+/-- non-vacuity: six requests of five kinds on four documents; requests 1 (duplicate `_id`) and 3
+    (`$set` of `_id`) raise write errors; ordered stops at 1, unordered reports `[1, 3]` -/
+example :
+    let reqs : List Val := [
+      .arr [.str "InsertOne", .doc [("_id", .int 9)]],
+      .arr [.str "InsertOne", .doc [("_id", .int 1)]],
+      .arr [.str "UpdateMany", .doc [("a", .doc [("$gt", .int 1)])], .doc [("$set", .doc [("b", .int 1)])], .bool false],
+      .arr [.str "UpdateOne", .doc [("_id", .int 3)], .doc [("$set", .doc [("_id", .int 5)])], .bool false],
+      .arr [.str "ReplaceOne", .doc [("_id", .int 4)], .doc [("a", .int 0)], .bool false],
+      .arr [.str "DeleteMany", .doc [("a", .int 1)]]]
+    (reqs.all plainRequest && (match bulkPrecheck reqs with | .ok _ => true | _ => false) &&
+     (match (bulkWrite {} 0 Proofs.C08Ext.granColl reqs true).2 with
+      | .bulkErr d => errorPositions d == [.int 1]
+      | _ => false) &&
+     (match (bulkWrite {} 0 Proofs.C08Ext.granColl reqs false).2 with
+      | .bulkErr d => errorPositions d == [.int 1, .int 3]
+      | _ => false) &&
+     seqFailures {} 0 (reqs.map asSingle) Proofs.C08Ext.granColl 0 == [1, 3]) = true := by
+  decide +kernel
 
 end MongoModel.Props.C08
